@@ -2,6 +2,7 @@ from propkit import job
 
 STATS = "harness/extras/trafficlogger/c15_stats_test.go"
 CENSUS = "harness/extras/trafficlogger/c15_census_test.go"
+SLOWLOG = "harness/extras/trafficlogger/c15_slowlog_test.go"
 
 PROP = {
     "level": "exploration",
@@ -13,8 +14,8 @@ PROP = {
             [STATS], "^TestVerifC15(Conservation|LinHist)$",
             ["c15-conserve", "c15-linhist"], race=True, timeout_quick=600, timeout_thorough=3600),
         job("census", "extras", "./trafficlogger/", "trafficlogger",
-            [STATS, CENSUS], "^TestVerifC15Census$",
-            ["c15-census"], race=True, timeout_quick=600, timeout_thorough=3600),
+            [STATS, CENSUS, SLOWLOG], "^TestVerifC15(Census|SlowLogger)$",
+            ["c15-census", "c15-slowlog"], race=True, timeout_quick=600, timeout_thorough=3600),
     ],
     "parallel": 2,
     "post": [
@@ -45,6 +46,13 @@ PROP = {
              "then reconnects (first report refused and that connection disconnected, next connection accepted), kick of "
              "a user who has never been online and then connects, server close; after every step, at virtual quiescence, per user: "
              "sum(online)-sum(offline) == live authenticated connections == GET /online, never negative, 0 at the end. "
+             "slowlog: same world, but the pass-through's LogOnlineState sleeps 0/50/700 ms virtual before recording and "
+             "forwarding (modes: only online slow, only offline slow, both, random per call); 5..8 connections per case "
+             "(real and raw clients, staggered starts, overlapping connections of one id, two ids with a single "
+             "connection) authenticate and close at once / after 20, 300, 2000 ms / stay / close while the "
+             "authentication is still being answered; per id the balance of DELIVERED events never goes negative "
+             "(single-connection ids: exactly online then offline), balance == GET /online == open authenticated "
+             "connections at quiescence, {} and online==offline counts after everybody left (client close or server close). "
              "Non-trivial = round with non-empty cleared snapshots and refusals / history with overlapping operations "
              "on one user / census script containing a kick or a non-client-close ending; distinct = distinct script."),
     "assumptions": [
